@@ -907,7 +907,6 @@ end RenetVerif.SrcPropsNcHistory
     Transport needs the same instrumentation over the generated struct (fields `global_sequence`, `clients[i].sequence`,
     `clients[i].send_key`, generated `find_client_slot_by_id`) and `Sv.sstep a s op = (NS.step a s op').map …` (the op types
     `Sv.SOp` and `NS.Op` are isomorphic).
-  * the client trace system (generated `NetcodeClient`: `update` | `process_packet` | `generate_payload_packet` | `disconnect`)
-    with `SrcTieNcClient` / `ncCInv_cliInv`, and `C18U.client_never_timed_out` on it.
-  * C10 `no_second_connected`, `log_replays` (same pattern as `at_most_one_disconnected`).
+  DONE LATER, elsewhere: the client trace system (`Lemmas/SrcEquiv/SrcNcClientSystem.lean`, `Props/SrcPropsNcClientHistory.lean`);
+  C10 `no_second_connected`, `log_replays` and the per-call C04 server statements (`Props/SrcPropsNcHistoryMore.lean`).
 -/
